@@ -82,6 +82,11 @@ fn session(rec: &mut Recorder, ids: &mut IdMap, p: &mut Pair, a_requests: bool, 
     } else {
         (&mut p.b, &mut p.a, &mut p.b_req, &mut p.a_resp)
     };
+    if !resp.exists() {
+        // a responder without the graph has nothing to offer (outside the property: the graphs
+        // share an init command); treat as a quiet session
+        return Some((0, 0, SessionLog::default()));
+    }
     let before = committed(req);
     let theirs = committed(resp);
     let missing: usize = theirs.keys().filter(|k| !before.contains_key(k)).count();
@@ -483,7 +488,7 @@ fn main() {
         return;
     }
     let thorough = args.thorough() || args.search;
-    let cases = args.budget(40, 400);
+    let cases = args.budget(300, 3000);
     for idx in 0..cases as u64 {
         run(&mut rec, args.seed, idx, thorough, None);
     }
